@@ -76,6 +76,17 @@ theorem cookieSum_take (k : Nat) (fs : List Field) : cookieSum (fs.take k) ≤ c
       simp only [cookieSum, List.take_succ_cons, List.map_cons, List.sum_cons] at this ⊢
       omega
 
+theorem ownSum_take (k : Nat) (fs : List RField) : ownSum (fs.take k) ≤ ownSum fs := by
+  induction fs generalizing k with
+  | nil => simp
+  | cons f rest ih =>
+    cases k with
+    | zero => simp [ownSum]
+    | succ k =>
+      have := ih k
+      simp only [ownSum, List.take_succ_cons, List.map_cons, List.sum_cons] at this ⊢
+      omega
+
 theorem own_uid (b : Bytes) : (RField.uid b).wire 0 = next4 (4 + b.length) := by
   simp only [RField.wire, RField.dataLen, fieldWire]
   congr 1; omega
@@ -194,10 +205,7 @@ theorem built_budget {info env req c a r} (h : build info env req c a = .ok r) (
     intro f hf; unfold draftTail at hf; split at hf <;> simp at hf; subst hf; decide
   have memC : ∀ alg f, f ∈ freshCookies alg req → f.frameOk = true := by
     intro alg f hf
-    simp only [freshCookies, List.mem_filterMap] at hf
-    obtain ⟨x, _, hx⟩ := hf
-    have : f = .cookie (freshCookieLen alg) := by
-      cases x <;> simp [cookieFor] at hx <;> exact hx.2.symm
+    have := mem_freshCookies hf
     subst this
     simp only [RField.frameOk, RField.dataLen, RespSize.frameOk, freshCookieLen]
     split <;> decide
@@ -285,7 +293,7 @@ theorem built_budget {info env req c a r} (h : build info env req c a = .ok r) (
             subst h
             have hck : ownSum (freshCookies alg req) ≤ cookieSum (req.auth ++ req.enc) := by
               unfold freshCookies
-              exact Nat.le_trans (ownSum_cookies alg _) (cookieSum_take _ _)
+              exact Nat.le_trans (ownSum_take _ _) (ownSum_cookies alg _)
             refine ⟨by simp [timeHeader], ?_, hck, by simp, .inl rfl, .inr rfl, ?_⟩
             · simp only []
               split
